@@ -2,7 +2,7 @@
    non-vacuity examples.  (Concrete strings are code-point lists; the text is given next to each.) *)
 From Coq Require Import List NArith ZArith Bool Permutation.
 Import ListNotations.
-Require Import Base.Wire Base.PyStr C02.Model C02.Lemmas C02.Inv.
+Require Import Base.Wire Base.PyStr C02.Model C02.Lemmas C02.Inv C02.Grant.
 Require C03.Model C16.Model C16.Roundtrip C16.Props.
 Open Scope N_scope.
 
@@ -108,14 +108,71 @@ Proof. vm_compute. reflexivity. Qed.
 (* ---- the invariant-based theorem: non-vacuity ---- *)
 Example ex_wf : wf_state s0 = true.
 Proof. vm_compute. reflexivity. Qed.
-Example ex_history_hosts_ok :
-  reloads_hosts_ok s0 [OCmd E_adm t_foo; OReload; OCmd E_adm t_chan; OReload] = true.
-Proof. vm_compute. reflexivity. Qed.
 (* two accounts with the same name and overlapping hostmasks: outside C16's users_dom (the load stops at the
    collision), inside the domain of C02_no_new_owner_reload *)
 Definition s_dup : st :=
   St [Acct (C16.Model.User (Some 1%Z) [98; 111; 115; 115] false false true [104; 124; 57; 56; 46; 49; 49; 50; 46; 49; 49; 57; 46] [[111; 119; 110; 101; 114]] [[98; 111; 115; 115; 33; 111; 64; 104; 111; 115; 116; 46; 111; 119; 110; 101; 114]] [] []) [];
       Acct (C16.Model.User (Some 3%Z) [112; 108; 97; 105; 110] false false true [104; 124; 49; 49; 50; 46; 49; 49; 50; 46; 49; 49; 57; 46] [] [[112; 108; 97; 105; 110; 33; 112; 64; 104; 111; 115; 116; 46; 112; 108; 97; 105; 110]] [] []) [];
       Acct (C16.Model.User (Some 4%Z) [112; 108; 97; 105; 110] false false true [104; 124; 49; 49; 50; 46; 49; 49; 57; 46] [[102; 111; 111]] [[42; 33; 42; 64; 104; 111; 115; 116; 46; 112; 108; 97; 105; 110]] [] []) []] 4%Z None [] [].
-Example ex_dup_covered : reload_dom s_dup = false /\ wf_state s_dup = true /\ hosts_dom s_dup = true.
+Example ex_dup_covered : reload_dom s_dup = false /\ wf_state s_dup = true.
 Proof. vm_compute. auto. Qed.
+
+(* a hostmask with a trailing newline (what `user hostmask add "a!b@c\n"` stores): outside C16's domain and not a
+   single token, inside wf_state *)
+Definition s_nl : st :=
+  St [Acct (C16.Model.User (Some 1%Z) [110; 108] false false true [104; 124; 49; 49; 50; 46; 49; 49; 57; 46] [] [[97; 33; 98; 64; 99; 10]] [] []) []] 1%Z None [] [].
+Example ex_newline_hostmask_covered : reload_dom s_nl = false /\ hosts_dom s_nl = false /\ wf_state s_nl = true.
+Proof. vm_compute. auto. Qed.
+
+(* ---- C02_grow_only_entitled: non-vacuity ---- *)
+Definition c_foo : str := [102; 111; 111].            (* foo *)
+Definition c_chanvoice : str := [35; 99; 44; 118; 111; 105; 99; 101].      (* #c,voice *)
+
+(* the admin legitimately grants "foo" to plain: plain (3) has it afterwards, did not have it before, and the
+   step satisfies [grant] through the admin route *)
+Example ex_grant_admin :
+  (exists a', In a' (s_users (run_ops s0 [OCmd E_adm t_foo])) /\ aid a' = 3%Z /\ C03.Model.smem c_foo (caps a') = true)
+  /\ ~ had (s_users s0) 3%Z c_foo
+  /\ grant s0 E_adm t_foo 3%Z c_foo.
+Proof.
+  split; [|split].
+  - remember (run_ops s0 [OCmd E_adm t_foo]) as r eqn:R. vm_compute in R. subst r.
+    eexists. split; [simpl; right; right; left; reflexivity|]. split; vm_compute; reflexivity.
+  - intros (a & Hin & Ha & Hc). simpl in Hin.
+    destruct Hin as [H|[H|[H|[]]]]; subst a; vm_compute in Ha; vm_compute in Hc; congruence.
+  - eapply (GAdmin s0 E_adm t_foo 3%Z c_foo [112; 108; 97; 105; 110] c_foo).
+    + vm_compute; reflexivity.
+    + vm_compute; reflexivity.
+    + vm_compute; reflexivity.
+    + vm_compute; reflexivity.
+    + vm_compute; reflexivity.
+    + vm_compute; reflexivity.
+    + vm_compute; reflexivity.
+    + vm_compute. discriminate.
+    + right. vm_compute. reflexivity.
+    + vm_compute; reflexivity.
+Qed.
+
+(* the channel op (adm holds #c,op) grants "#c,voice" to plain *)
+Example ex_grant_chanop :
+  (exists a', In a' (s_users (run_ops s0 [OCmd E_adm t_chan])) /\ aid a' = 3%Z /\ C03.Model.smem c_chanvoice (caps a') = true)
+  /\ ~ had (s_users s0) 3%Z c_chanvoice
+  /\ grant s0 E_adm t_chan 3%Z c_chanvoice.
+Proof.
+  split; [|split].
+  - remember (run_ops s0 [OCmd E_adm t_chan]) as r eqn:R. vm_compute in R. subst r.
+    eexists. split; [simpl; right; right; left; reflexivity|]. split; vm_compute; reflexivity.
+  - intros (a & Hin & Ha & Hc). simpl in Hin.
+    destruct Hin as [H|[H|[H|[]]]]; subst a; vm_compute in Ha; vm_compute in Hc; congruence.
+  - eapply (GChan s0 E_adm t_chan 3%Z c_chanvoice [35; 99] [112; 108; 97; 105; 110] [118; 111; 105; 99; 101] [118; 111; 105; 99; 101]).
+    + vm_compute; reflexivity.
+    + vm_compute; reflexivity.
+    + vm_compute; reflexivity.
+    + vm_compute; reflexivity.
+    + vm_compute; reflexivity.
+    + vm_compute; reflexivity.
+    + vm_compute; reflexivity.
+    + vm_compute; reflexivity.
+    + vm_compute; reflexivity.
+    + vm_compute; reflexivity.
+Qed.
